@@ -19,8 +19,15 @@ int main(int argc, char **argv) {
   w.schedule(ms(10), [&, STALL] { startedAt.store(since()); std::this_thread::sleep_for(ms(STALL + 15)); });
   while (startedAt.load() < 0) std::this_thread::sleep_for(ms(1));
   std::this_thread::sleep_for(ms(STALL));
-  long long schedAt = since();
-  w.schedule(ms(DELAY), [&] { firedAt.store(since()); });
+  long long schedAt;
+  if (in.count("RESCHED") && replay_io::i64(in["RESCHED"]) == 1) {          // Q5: reschedule() of a pending far timer during the stall
+    auto id = w.schedule(ms(10000), [&] { firedAt.store(since()); });
+    schedAt = since();
+    if (!w.reschedule(id, ms(DELAY))) replay_io::fail("reschedule of a pending timer reported failure");
+  } else {
+    schedAt = since();
+    w.schedule(ms(DELAY), [&] { firedAt.store(since()); });
+  }
   for (int k = 0; k < (DELAY + 400) / 5 && firedAt.load() < 0; k++) std::this_thread::sleep_for(ms(5));
   long long f = firedAt.load(), deadline = schedAt + DELAY;
   printf("wheel(10 ms, 16, 2): tick thread busy in a handler since %lld ms; schedule(%lld ms) at %lld ms (deadline %lld ms); handler ran at %lld ms\n", startedAt.load(), DELAY, schedAt, deadline, f);
